@@ -62,6 +62,8 @@ func cmdRun(args []string) int {
 	solverMS := fs.Int("solver-ms", 10000, "per query solver timeout")
 	oracle := fs.String("oracle", "", "comma list: maporder, capacity")
 	mapEvents := fs.Int("maporder-events", 12, "forking map iteration events per path")
+	mapFrom := fs.Int("maporder-from", 0, "map iteration events before this index keep insertion order")
+	mapMode := fs.String("maporder-mode", "", "global strategy instead of a forking window: reverse | rotate")
 	samples := fs.Int("samples", 5, "path samples kept per harness")
 	solverCmd := fs.String("solver", "z3 -in -smt2", "solver command")
 	smtLog := fs.String("smtlog", "", "directory for SMT transcripts")
@@ -151,6 +153,8 @@ func cmdRun(args []string) int {
 		case "maporder":
 			opt.Oracle.MapOrder = true
 			opt.Oracle.MapOrderEvents = *mapEvents
+			opt.Oracle.MapOrderFrom = *mapFrom
+			opt.Oracle.MapOrderMode = *mapMode
 		case "capacity":
 			opt.Oracle.Capacity = true
 		}
